@@ -1084,6 +1084,13 @@ def stage_survive(ctx):
               dict(kind="spheroid", n=[1.5, 0.0], r=[s / 2, s], rotation=[0, 0.4, 0.3]),
               dict(kind="cylinder", n=[1.5, 0.0], d=s, h=s / 2, rotation=[0, 0.4, 0.3])][k % 3]
         add(sp, "size-overflow" if s > 1 else "size-underflow")
+    # every particle kind at the sizes where the solver's arithmetic underflows without noticing (1e-25 ... 1e-45)
+    for e in (25, 30, 35, 40, 45):
+        s = 10.0 ** -e
+        for sp in (dict(kind="sphere", n=[1.5, 0.0], r=s),
+                   dict(kind="spheroid", n=[1.5, 0.0], r=[s / 2, s], rotation=[0, 0.4, 0.3]),
+                   dict(kind="cylinder", n=[1.5, 0.0], d=s, h=s / 2, rotation=[0, 0.4, 0.3])):
+            add(sp, "size-underflow")
     # sizes no particle has: negative or zero semi-axes / diameters / heights / radii (a sampler proposes them when a size
     # has a Gaussian prior); "any size" includes them: a Python exception is the expected outcome, not a dead interpreter
     bad = [dict(kind="spheroid", n=[1.5, 0.0], r=[-0.4, 0.6], rotation=[0, 0.4, 0.3]),
@@ -1137,6 +1144,33 @@ def stage_survive(ctx):
 
 # =============================================================================================
 
+TMATRIX_PY = "holopy/scattering/theory/tmatrix.py"
+
+
+def _src_items():
+    from harness.lib import pysrc
+    return [
+        dict(file=TMATRIX_PY, qualname="Tmatrix._parse_args (alpha .. alpha)", name="euler_src",
+             fn=lambda repo: pysrc.translate_segment(
+                 repo, TMATRIX_PY, "Tmatrix._parse_args", "euler_src", "alpha", "alpha", ["alpha", "beta"],
+                 extra_sig="(fmodf : R -> R -> R)", calls={"fmod": ("fmodf", 2)},
+                 opaque_exprs={"scatterer.rotation[2]": "rot2", "scatterer.rotation[1]": "rot1"})),
+        dict(file=TMATRIX_PY, qualname="Tmatrix._parse_args (axi .. eps)", name="sizes_src",
+             fn=lambda repo: pysrc.translate_segment(
+                 repo, TMATRIX_PY, "Tmatrix._parse_args", "sizes_src", "axi", "eps", ["axi", "rat", "lam", "mrr", "mri", "eps"],
+                 inputs=["rxy", "rz", "med_wavelen", "medium_index"], bool_inputs=["iscyl"],
+                 extra_sig="(cbrtf : R -> R)", calls={"cbrt": ("cbrtf", 1)},
+                 opaque_exprs={"scatterer.n.real": "nre", "scatterer.n.imag": "nim"})),
+    ]
+
+
+def stage_srctie(ctx):
+    from harness.lib import srctie
+    ok = srctie.run(ctx, "C10", "From Coq Require Import Lia Psatz.\nFrom HV Require Import C10.Model C10.Lemmas C10.Props.\n",
+                    _src_items())
+    ctx.count("srctie:%s" % ("ok" if ok else "broken"))
+
+
 def run(ctx):
     ctx.rule = ("scatterers (sphere / spheroid aspect 0.3-3 / cylinder 0.5-2, real and absorbing index) x Euler angles "
                 "(in range, negative, > 2 pi, exact multiples of pi) x detector angles; boundary argument tuples "
@@ -1162,7 +1196,15 @@ def run(ctx):
                     "oracle: numpy cos/sin/exp, float % (as x - m*floor(x/m)), x**(1/3.), np.pi",
                     "oracle: INT(XEV+4.05*XEV**0.333333) evaluated by the harness in floats for the size guard",
                     "child-process runner: outcome classification returned / raised / died"]
+    ctx.clauses_proved.append(
+        "source tie: two straight-line segments of Tmatrix._parse_args (the Euler-angle normalisation; axi, rat, lam, mrr, mri, eps), "
+        "translated from the current source text on every run, are proved equal to the model's norm_euler / argument tuple for every "
+        "scatterer kind; 'for all real Euler angles the angles handed to the Fortran code are in its range and denote the same axis' "
+        "restated for the translated source")
+    ctx.trusted.append("translator harness/lib/pysrc.py (segment of a function between two assignments; float % with a positive literal "
+                       "read as x - m floor(x/m) with the floor an oracle; x ** (1/3.) the cube-root oracle; base ** bool)")
     guarded(ctx, "prove", ctx.prove)
+    guarded(ctx, "source-tie", stage_srctie, ctx)
     boot.build_all()
     guarded(ctx, "parse", stage_parse, ctx)
     guarded(ctx, "guard", stage_guard, ctx)
@@ -1178,6 +1220,10 @@ def replay(ctx, data):
     """re-run the stored failing case on the current tree (in a child process)"""
     d = data["data"]
     kind = d.get("kind")
+    if kind == "tie":
+        ctx.prove()
+        stage_srctie(ctx)
+        return
     boot.build_all()
     if kind == "corr-parse" and data["key"].startswith("stop:"):
         # the argument tuple was out of the Fortran range: run the calculation itself
